@@ -562,8 +562,25 @@ func checkC06Signed(r *Report, p *Prog) {
 			added := false
 			for _, x := range rg.Calls("(*" + etreePath + ".Element).AddChild") {
 				c := x.I.(*ssa.Call)
-				if rg.IsFrom(RV{V: c.Call.Args[0], C: x.C}, rebuilt) && strings.HasSuffix(a.Ctx(c.Parent()).AP(c.Call.Args[1]), "IdpAuthnRequest.AssertionEl") {
+				if !strings.HasSuffix(a.Ctx(c.Parent()).AP(c.Call.Args[1]), "IdpAuthnRequest.AssertionEl") {
+					continue
+				}
+				if rg.IsFrom(RV{V: c.Call.Args[0], C: x.C}, rebuilt) {
 					added = true
+				}
+				// the rebuilt tree stored into the request first and read back from it (req.ResponseEl = el;
+				// req.ResponseEl.AddChild(...))
+				if strings.HasSuffix(a.Ctx(c.Parent()).AP(c.Call.Args[0]), "IdpAuthnRequest."+so.outField) {
+					rg.Each(func(y RI) {
+						st, ok := y.I.(*ssa.Store)
+						if !ok {
+							return
+						}
+						fa, ok := st.Addr.(*ssa.FieldAddr)
+						if ok && fieldName(fa.X.Type(), fa.Field) == so.outField && typeIs(fa.X.Type(), modPath, "IdpAuthnRequest") && rg.IsFrom(RV{V: st.Val, C: y.C}, rebuilt) && rg.Before(y, x) {
+							added = true
+						}
+					})
 				}
 			}
 			r.Check(added, rule, p.FnName(fn)+": the (signed/encrypted) assertion element is added to the signed response tree", p.InstrPos(rebuilt.I), "AddChild(req.AssertionEl)", "the emitted response tree does not contain req.AssertionEl")
